@@ -33,7 +33,7 @@ var Clock int64
 func Tick() int64 { return atomic.AddInt64(&Clock, 1) }
 
 // Watchdog is the generous wall-clock bound whose firing is inconclusive.
-var Watchdog = 60 * time.Second
+var Watchdog = 25 * time.Second
 
 // Peer is one raw connection to a server.
 type Peer struct {
@@ -339,6 +339,7 @@ func (p *Peer) await(cond func() bool) (quiesce.Outcome, []quiesce.G) {
 	start := time.Now()
 	deadline := start.Add(Watchdog)
 	wait := 500 * time.Microsecond
+	span := quiesce.StartSpan()
 	for {
 		p.mu.Lock()
 		ok := cond()
@@ -356,7 +357,8 @@ func (p *Peer) await(cond func() bool) (quiesce.Outcome, []quiesce.G) {
 		if p.QuietAfter > 0 && time.Since(start) < p.QuietAfter {
 			continue
 		}
-		if q, gs := quiesce.Quiet(); q {
+		q, gs := quiesce.Quiet()
+		if q {
 			p.mu.Lock()
 			ok := cond()
 			p.mu.Unlock()
@@ -365,8 +367,9 @@ func (p *Peer) await(cond func() bool) (quiesce.Outcome, []quiesce.G) {
 			}
 			return quiesce.Stuck, gs
 		}
+		span.Observe(gs)
 		if time.Now().After(deadline) {
-			return quiesce.Timeout, quiesce.Snapshot()
+			return span.Classify(), quiesce.Snapshot()
 		}
 		if wait < 20*time.Millisecond {
 			wait *= 2
